@@ -3,6 +3,7 @@
      call_ok_b_sound : call_ok_b_sound_statement     the boolean contract check is sound
      oracle_C01      : oracle_C01_statement          C01 for any match finder passing the check
      oracle_C10      : oracle_C10_statement          C10 likewise
+     oracle_refines  : oracle_refines_statement      the model's own lz77 as the oracle = the model run
 
    Structure: (1) toks_cover_b on the array of the input implies the expansion equation of the
    contract; (2) a forward invariant `qinv` of the dyn state inside an odyn (the ghost of
@@ -10,7 +11,9 @@
    the flags o_mismatch / o_contract are monotone (`fle`), so a good final state means every
    call on the way was answered with the model's arguments and passed the contract check;
    (3) lifted through Writer.Write's loop and whole histories; (4) composed with trace decoding
-   as in WriterTheorems.v. *)
+   as in WriterTheorems.v; (6) for oracle_refines: the contract check is also complete on what
+   lz_ok guarantees (toks_cover_complete), and the oracle run fed with the model's answers is the
+   model run with an empty table (`rt`), call by call (loop_sim ... run_sim). *)
 From Verif Require Import LZ77Proofs GenerateProofs HuffmanProofs RenderProofs HeaderProofs SymbolsProofs
      TraceDecode WriterStateProofs TraceContent StreamRender WriterTheorems.
 From Verif Require Import OracleSpec.
@@ -812,3 +815,326 @@ Proof.
   rewrite (toks_cover_complete (dbuf c) (dW c) Hb (rev new) (didx c) (lz_off r) K6 Hidx K4 K5).
   rewrite lenN_rev, K2. lia.
 Qed.
+
+(* 6b. the oracle run never touches the table and never flags an out-of-bounds read: its dyn
+   state is the model's with an empty table *)
+Definition rt (c : dyn) : dyn :=
+  mkdyn (dW c) (dmask c) (dsync c) (dbuf c) (didx c) (dproc c) aempty (dtoks c) (dntok c)
+        (dbb c) (ddest c) false.
+
+Lemma rt_accumulate : forall c data,
+  dyn_accumulate (rt c) data =
+  (rt (fst (fst (dyn_accumulate c data))), snd (fst (dyn_accumulate c data)), snd (dyn_accumulate c data)).
+Proof.
+  intros c data. unfold dyn_accumulate, rt. cbn [dW didx dbuf dmask dsync dproc dtable dtoks dntok dbb ddest doob].
+  destruct (2 * dW c <=? didx c); reflexivity.
+Qed.
+
+Lemma rt_encode : forall c last,
+  dyn_encode_block (rt c) last = (rt (fst (dyn_encode_block c last)), snd (dyn_encode_block c last)).
+Proof.
+  intros c last. unfold dyn_encode_block, rt. cbn [dW didx dbuf dmask dsync dproc dtable dtoks dntok dbb ddest doob].
+  destruct (encode_block (dsync c) (frev (dtoks c)) last (dbb c)) as [chunks bb].
+  destruct (dest_write_all (dest_event (ddest c) (EBlock (frev (dtoks c)) last)) chunks) as [d1 failed].
+  destruct failed; reflexivity.
+Qed.
+
+Lemma encode_ntok : forall c last, snd (dyn_encode_block c last) = false ->
+  dntok (fst (dyn_encode_block c last)) = 0.
+Proof.
+  intros c last. unfold dyn_encode_block.
+  destruct (encode_block (dsync c) (frev (dtoks c)) last (dbb c)) as [chunks bb].
+  destruct (dest_write_all (dest_event (ddest c) (EBlock (frev (dtoks c)) last)) chunks) as [d1 failed].
+  destruct failed; cbn [fst snd dntok]; [discriminate|reflexivity].
+Qed.
+
+Definition pinv (c : dyn) : Prop := oinv c /\ bytes_ok (dbuf c) /\ dntok c < max_token.
+
+Lemma args_okb_self : forall c flush new_rev r, args_okb (rt c) flush (answer_of c flush new_rev r) = true.
+Proof.
+  intros c flush new_rev r. unfold args_okb, answer_of, rt.
+  cbn [k_flush k_len k_proc k_off k_ntok0 dbuf dproc didx dntok].
+  rewrite Bool.eqb_reflx. lia.
+Qed.
+
+Lemma ostep_sim : forall c flush new_rev r a rest mis con n,
+  lz_toks r = new_rev ++ dtoks c ->
+  call_ok_b (dW c) (dbuf c) (answer_of c flush new_rev r) = true ->
+  ostep (mkodyn (rt c) a mis con n) flush (answer_of c flush new_rev r) rest =
+  mkodyn (rt (after_lz c r)) rest mis con (n + 1).
+Proof.
+  intros c flush new_rev r a rest mis con n K1 Hc. unfold ostep. cbn [od o_mismatch o_contract o_calls].
+  rewrite args_okb_self. change (dW (rt c)) with (dW c). change (dbuf (rt c)) with (dbuf c).
+  rewrite Hc, orb_false_r, andb_true_r. f_equal.
+  unfold after_call, after_lz, rt, answer_of.
+  cbn [dW didx dbuf dmask dsync dproc dtable dtoks dntok dbb ddest doob k_noff k_new k_ntok].
+  rewrite rev_involutive, <- K1. reflexivity.
+Qed.
+
+Lemma loop_sim : forall flush final fuel c, pinv c ->
+  (N.to_nat (lenN (dbuf c) - didx c) < fuel)%nat ->
+  (exists ans, forall rest mis con n,
+     odyn_compress_loop fuel (mkodyn (rt c) (ans ++ rest) mis con n) flush final =
+     (mkodyn (rt (fst (dyn_compress_loop fuel c flush final))) rest mis con (n + lenN ans),
+      snd (dyn_compress_loop fuel c flush final))) /\
+  (snd (dyn_compress_loop fuel c flush final) = false -> pinv (fst (dyn_compress_loop fuel c flush final))).
+Proof.
+  intros flush final. induction fuel as [|f IH]; intros c (Ho & Hb & Hnt) Hf; [lia|].
+  rewrite loop_unfold. cbv zeta.
+  destruct (lz_oinv c flush Ho) as (Noob & HK & Ho1).
+  pose proof Ho as (_ & _ & _ & Hidx & _).
+  destruct (answer_ok c flush _ Hb Hidx HK) as (new & K1 & Hc).
+  pose proof HK as (new' & _ & _ & K3 & K4 & _ & _ & K7).
+  set (r := TraceContent.lzcall c flush) in *. set (c1 := after_lz c r) in *.
+  set (k := answer_of c flush new r) in *.
+  assert (Hstep : forall a rest mis con n, ostep (mkodyn (rt c) a mis con n) flush k rest =
+                                            mkodyn (rt c1) rest mis con (n + 1)).
+  { intros a rest mis con n. apply ostep_sim; assumption. }
+  change (dntok c1) with (lz_ntok r). change (didx c1) with (lz_off r). change (dbuf c1) with (dbuf c).
+  destruct ((lz_ntok r <? max_token) && negb flush) eqn:EA.
+  - split.
+    + exists [k]. intros rest mis con n. cbn [app fst snd].
+      rewrite (oloop_unfold f (mkodyn (rt c) (k :: rest) mis con n) flush final k rest eq_refl). cbv zeta. rewrite Hstep.
+      change (k_ntok k) with (lz_ntok r). rewrite EA. reflexivity.
+    + intros _. cbn [fst]. split; [exact Ho1|]. split; [exact Hb|]. change (dntok c1) with (lz_ntok r). lia.
+  - pose proof (rt_encode c1 (final && (lz_off r =? lenN (dbuf c)))) as RE.
+    pose proof (encode_block_oinv c1 (final && (lz_off r =? lenN (dbuf c)))) as EO.
+    pose proof (encode_block_frame c1 (final && (lz_off r =? lenN (dbuf c)))) as EF.
+    pose proof (encode_ntok c1 (final && (lz_off r =? lenN (dbuf c)))) as EN.
+    destruct (dyn_encode_block c1 (final && (lz_off r =? lenN (dbuf c)))) as [c2 failed] eqn:E2.
+    cbn [fst snd] in RE, EN. specialize (EO c2 failed eq_refl Ho1).
+    destruct (EF c2 failed eq_refl) as (F1 & F2 & F3 & F4 & F5 & F6). clear EF.
+    assert (Hcommon : forall rest' mis con n,
+      odyn_compress_loop (S f) (mkodyn (rt c) (k :: rest') mis con n) flush final =
+      (let o2 := mkodyn (rt c2) rest' mis con (n + 1) in
+       if failed then (o2, true) else if lz_off r =? lenN (dbuf c) then (o2, false)
+       else odyn_compress_loop f o2 flush final)).
+    { intros rest' mis con n.
+      rewrite (oloop_unfold f (mkodyn (rt c) (k :: rest') mis con n) flush final k rest' eq_refl). cbv zeta. rewrite Hstep.
+      change (k_ntok k) with (lz_ntok r). rewrite EA. cbn [od].
+      change (didx (rt c1)) with (lz_off r). change (dbuf (rt c1)) with (dbuf c).
+      rewrite RE. reflexivity. }
+    assert (Hp2 : failed = false -> pinv c2).
+    { intros Ef. split; [exact EO|]. split; [rewrite F2; exact Hb|]. rewrite (EN Ef). exact max_token_pos. }
+    destruct failed.
+    + split; [|cbn [snd]; intros E; discriminate E].
+      exists [k]. intros rest mis con n. cbn [app fst snd]. rewrite Hcommon. reflexivity.
+    + destruct (lz_off r =? lenN (dbuf c)) eqn:EE.
+      * split; [|intros _; cbn [fst]; apply Hp2; reflexivity].
+        exists [k]. intros rest mis con n. cbn [app fst snd]. rewrite Hcommon. reflexivity.
+      * assert (Hge : dntok c < lz_ntok r).
+        { destruct flush; cbn [negb] in EA; [|lia].
+          destruct (N.leb_spec (lz_ntok r) max_token) as [Hle|Hgt]; [|lia].
+          specialize (K7 eq_refl Hle). lia. }
+        assert (Hadv : didx c < lz_off r).
+        { eapply lz_ok_advance; [exact HK|exact Hidx|exact Hge]. }
+        destruct (IH c2 (Hp2 eq_refl)) as ((ans2 & IH1) & IH2).
+        { rewrite F2, F3. change (didx c1) with (lz_off r). change (dbuf c1) with (dbuf c). lia. }
+        split; [|exact IH2].
+        exists (k :: ans2). intros rest mis con n. cbn [app]. rewrite Hcommon. cbv zeta.
+        rewrite IH1. rewrite lenN_cons. do 2 f_equal. lia.
+Qed.
+
+Lemma rt_short : forall c flush final, final && (lenN (dbuf c) =? 0) = true ->
+  dyn_compress_block (rt c) flush final =
+  (rt (fst (dyn_compress_block c flush final)), snd (dyn_compress_block c flush final)).
+Proof.
+  intros c flush final E. unfold dyn_compress_block. change (dbuf (rt c)) with (dbuf c). rewrite E.
+  change (dbb (rt c)) with (dbb c). change (ddest (rt c)) with (ddest c).
+  destruct (bb_take (bb_empty_block true (dbb c))) as [chunk bb].
+  destruct (dest_write (dest_event (ddest c) EFinalEmpty) chunk) as [d1 failed]. reflexivity.
+Qed.
+
+Lemma cblock_sim : forall flush final c, pinv c ->
+  (exists ans, forall rest mis con n,
+     odyn_compress_block (mkodyn (rt c) (ans ++ rest) mis con n) flush final =
+     (mkodyn (rt (fst (dyn_compress_block c flush final))) rest mis con (n + lenN ans),
+      snd (dyn_compress_block c flush final))) /\
+  (snd (dyn_compress_block c flush final) = false -> pinv (fst (dyn_compress_block c flush final))).
+Proof.
+  intros flush final c Hp. destruct (final && (lenN (dbuf c) =? 0)) eqn:E.
+  - split.
+    + exists []. intros rest mis con n. unfold odyn_compress_block. cbn [od app].
+      change (dbuf (rt c)) with (dbuf c). rewrite E, (rt_short c flush final E).
+      cbn [olift od o_ans o_mismatch o_contract o_calls]. rewrite lenN_nil, N.add_0_r. reflexivity.
+    + intros _. destruct Hp as (Ho & Hb & Hnt).
+      split; [apply compress_block_oinv; exact Ho|].
+      unfold dyn_compress_block. rewrite E.
+      destruct (bb_take (bb_empty_block true (dbb c))) as [chunk bb].
+      destruct (dest_write (dest_event (ddest c) EFinalEmpty) chunk) as [d1 failed].
+      cbn [fst dbuf dntok]. split; assumption.
+  - destruct (loop_sim flush final (S (S (length (dbuf c)))) c Hp (fuel_block c)) as ((ans & S1) & S2).
+    unfold dyn_compress_block. rewrite E. split; [|exact S2].
+    exists ans. intros rest mis con n. unfold odyn_compress_block. cbn [od].
+    change (dbuf (rt c)) with (dbuf c). rewrite E. apply S1.
+Qed.
+
+Lemma flush_sim : forall c, pinv c ->
+  (exists ans, forall rest mis con n,
+     odyn_flush (mkodyn (rt c) (ans ++ rest) mis con n) =
+     (mkodyn (rt (fst (dyn_flush c))) rest mis con (n + lenN ans), snd (dyn_flush c))) /\
+  (snd (dyn_flush c) = false -> pinv (fst (dyn_flush c))).
+Proof.
+  intros c Hp. destruct (cblock_sim true false c Hp) as ((ans & S1) & S2). unfold odyn_flush, dyn_flush.
+  destruct (dyn_compress_block c true false) as [c1 failed1] eqn:E1. cbn [fst snd] in S1, S2.
+  destruct failed1.
+  - split; [|cbn [snd]; intros E; discriminate E].
+    exists ans. intros rest mis con n. rewrite S1. reflexivity.
+  - specialize (S2 eq_refl).
+    destruct (bb_take (bb_empty_block false (dbb c1))) as [chunk bb] eqn:Eb.
+    destruct (dest_write (dest_event (ddest c1) ESync) chunk) as [d1 failed2] eqn:Ew. split.
+    + exists ans. intros rest mis con n. rewrite S1. cbn [od].
+      change (dbb (rt c1)) with (dbb c1). change (ddest (rt c1)) with (ddest c1). rewrite Eb, Ew. reflexivity.
+    + cbn [fst snd]. intros _. destruct S2 as (Ho & Hb & Hnt).
+      split; [eapply oinv_frame; [exact Ho|reflexivity..]|]. cbn [dbuf dntok]. split; assumption.
+Qed.
+
+Lemma accumulate_pinv : forall c data, pinv c -> bytes_ok data -> pinv (fst (fst (dyn_accumulate c data))).
+Proof.
+  intros c data (Ho & Hb & Hnt) Hd. split; [apply accumulate_oinv; exact Ho|].
+  rewrite accumulate_unfold. cbv zeta. cbn [fst dappend dbuf dntok]. split.
+  - unfold bytes_ok. apply Forall_app. split; [|apply Forall_firstn_; exact Hd].
+    unfold dpre. destruct (2 * dW c <=? didx c); [|exact Hb].
+    cbn [dslide dbuf]. unfold bytes_ok in Hb. rewrite Forall_forall in *. intros y Hy. apply Hb.
+    eapply In_skipn. exact Hy.
+  - unfold dpre. destruct (2 * dW c <=? didx c); exact Hnt.
+Qed.
+
+Lemma wloop_sim : forall fuel data c num c' n failed, pinv c -> bytes_ok data ->
+  write_loop comp c_accumulate c_compress fuel (CDyn c) data num = Some (c', n, failed) ->
+  exists ans d', c' = CDyn d' /\ (failed = false -> pinv d') /\
+    forall rest mis con m,
+      O_loop fuel (mkodyn (rt c) (ans ++ rest) mis con m) data num =
+      Some (mkodyn (rt d') rest mis con (m + lenN ans), n, failed).
+Proof.
+  induction fuel as [|f IH]; intros data c num c' n failed Hp Hb H.
+  - destruct data; cbn [write_loop] in H; [|discriminate H]. injection H as Hc Hn Hf. subst c' n failed.
+    exists [], c. split; [reflexivity|]. split; [intros _; exact Hp|].
+    intros rest mis con m. cbn [write_loop app]. rewrite lenN_nil, N.add_0_r. reflexivity.
+  - destruct data as [|x data].
+    + cbn [write_loop] in H. injection H as Hc Hn Hf. subst c' n failed.
+      exists [], c. split; [reflexivity|]. split; [intros _; exact Hp|].
+      intros rest mis con m. cbn [write_loop app]. rewrite lenN_nil, N.add_0_r. reflexivity.
+    + cbn [write_loop c_accumulate] in H.
+      pose proof (rt_accumulate c (x :: data)) as RA.
+      pose proof (accumulate_pinv c (x :: data) Hp Hb) as Hp1.
+      destruct (dyn_accumulate c (x :: data)) as [[d1 k] trig] eqn:Ea. cbn [fst snd] in RA, Hp1.
+      assert (Hb' : bytes_ok (skipn k (x :: data))).
+      { unfold bytes_ok in *. rewrite Forall_forall in *. intros y Hy. apply Hb.
+        eapply In_skipn. exact Hy. }
+      assert (HA : forall a mis con m,
+        o_accumulate (mkodyn (rt c) a mis con m) (x :: data) = (mkodyn (rt d1) a mis con m, k, trig)).
+      { intros a mis con m. unfold o_accumulate. cbn [od]. rewrite RA. reflexivity. }
+      destruct trig.
+      * cbn [c_compress] in H.
+        destruct (cblock_sim false false d1 Hp1) as ((ans1 & S1) & S2).
+        destruct (dyn_compress_block d1 false false) as [d2 failed2] eqn:Ec. cbn [fst snd] in S1, S2.
+        destruct failed2.
+        -- injection H as Hc Hn Hf. subst c' n failed.
+           exists ans1, d2. split; [reflexivity|]. split; [intros E; discriminate E|].
+           intros rest mis con m. cbn [write_loop]. rewrite HA. unfold o_compress. rewrite S1. reflexivity.
+        -- destruct (IH _ d2 _ _ _ _ (S2 eq_refl) Hb' H) as (ans2 & d' & Ec' & Hp' & S3).
+           exists (ans1 ++ ans2), d'. split; [exact Ec'|]. split; [exact Hp'|].
+           intros rest mis con m. cbn [write_loop]. rewrite HA. unfold o_compress.
+           rewrite <- app_assoc, S1, S3, lenN_app, N.add_assoc. reflexivity.
+      * destruct (IH _ d1 _ _ _ _ Hp1 Hb' H) as (ans2 & d' & Ec' & Hp' & S3).
+        exists ans2, d'. split; [exact Ec'|]. split; [exact Hp'|].
+        intros rest mis con m. cbn [write_loop]. rewrite HA. apply S3.
+Qed.
+
+Lemma run_sim : forall fuel h d e w' flags, (e = ENone -> pinv d) -> bytes_ok (hist_data h) ->
+  W_run fuel (mkw comp (CDyn d) e) (map hop_op h) = Some (w', flags) ->
+  exists ans d' e', w' = mkw comp (CDyn d') e' /\
+    forall rest mis con m,
+      O_run fuel (mkw odyn (mkodyn (rt d) (ans ++ rest) mis con m) e) (map hop_op h) =
+      Some (mkw odyn (mkodyn (rt d') rest mis con (m + lenN ans)) e', flags).
+Proof.
+  intros fuel. unfold W_run. induction h as [|o r IH]; intros d e w' flags Hp Hb H.
+  - cbn [map WriterSM.wrun] in H. injection H as Hw Hf. subst w' flags.
+    exists [], d, e. split; [reflexivity|]. intros rest mis con m.
+    cbn [map WriterSM.wrun app]. rewrite lenN_nil, N.add_0_r. reflexivity.
+  - change (hist_data (o :: r)) with ((match o with HWrite d => d | _ => [] end) ++ hist_data r) in Hb.
+    unfold bytes_ok in Hb. apply Forall_app in Hb. destruct Hb as (Hb1 & Hb2).
+    cbn [map WriterSM.wrun] in H.
+    destruct (wstep comp c_accumulate c_compress c_flush c_close (c_reset_to None) fuel
+                    (mkw comp (CDyn d) e) (hop_op o)) as [[w1 e1]|] eqn:Es; [|discriminate H].
+    destruct (WriterSM.wrun comp c_accumulate c_compress c_flush c_close (c_reset_to None) fuel w1
+                            (map hop_op r)) as [[w2 es2]|] eqn:Er; [|discriminate H].
+    injection H as Hw Hf. subst w2 flags.
+    (* one step: the oracle does the same with some answers *)
+    assert (Hone : exists ans1 d1 e1', w1 = mkw comp (CDyn d1) e1' /\ (e1' = ENone -> pinv d1) /\
+      forall rest mis con m,
+        O_step fuel (mkw odyn (mkodyn (rt d) (ans1 ++ rest) mis con m) e) (hop_op o) =
+        Some (mkw odyn (mkodyn (rt d1) rest mis con (m + lenN ans1)) e1', e1)).
+    { destruct o as [dd| |]; cbn [hop_op wstep] in Es |- *.
+      - unfold wwrite in Es |- *. cbn [we wc] in Es |- *. destruct e.
+        + destruct (write_loop comp c_accumulate c_compress fuel (CDyn d) dd 0) as [[[c n] failed]|] eqn:El;
+            [|discriminate Es].
+          injection Es as Hw He. subst w1 e1.
+          destruct (wloop_sim fuel dd d 0%nat c n failed (Hp eq_refl) Hb1 El) as (ans1 & d1 & Ec & Hp1 & S1).
+          subst c. exists ans1, d1, (if failed then EDest else ENone). split; [reflexivity|].
+          split; [destruct failed; [intros E; discriminate E|intros _; apply Hp1; reflexivity]|].
+          intros rest mis con m. rewrite S1. reflexivity.
+        + injection Es as Hw He. subst w1 e1. exists [], d, EClosed. split; [reflexivity|].
+          split; [intros E; discriminate E|]. intros rest mis con m.
+          cbn [app]. rewrite lenN_nil, N.add_0_r. reflexivity.
+        + injection Es as Hw He. subst w1 e1. exists [], d, EDest. split; [reflexivity|].
+          split; [intros E; discriminate E|]. intros rest mis con m.
+          cbn [app]. rewrite lenN_nil, N.add_0_r. reflexivity.
+      - unfold wflush in Es |- *. cbn [we wc] in Es |- *. destruct e.
+        + cbn [c_flush] in Es.
+          destruct (flush_sim d (Hp eq_refl)) as ((ans1 & S1) & S2).
+          destruct (dyn_flush d) as [d1 failed] eqn:El. cbn [fst snd] in S1, S2.
+          injection Es as Hw He. subst w1 e1.
+          exists ans1, d1, (if failed then EDest else ENone). split; [reflexivity|].
+          split; [destruct failed; [intros E; discriminate E|intros _; apply S2; reflexivity]|].
+          intros rest mis con m. rewrite S1. reflexivity.
+        + injection Es as Hw He. subst w1 e1. exists [], d, EClosed. split; [reflexivity|].
+          split; [intros E; discriminate E|]. intros rest mis con m.
+          cbn [app]. rewrite lenN_nil, N.add_0_r. reflexivity.
+        + injection Es as Hw He. subst w1 e1. exists [], d, EDest. split; [reflexivity|].
+          split; [intros E; discriminate E|]. intros rest mis con m.
+          cbn [app]. rewrite lenN_nil, N.add_0_r. reflexivity.
+      - unfold wclose in Es |- *. cbn [we wc] in Es |- *. destruct e.
+        + cbn [c_close] in Es.
+          destruct (cblock_sim true true d (Hp eq_refl)) as ((ans1 & S1) & S2).
+          destruct (dyn_compress_block d true true) as [d1 failed] eqn:El. cbn [fst snd] in S1, S2.
+          injection Es as Hw He. subst w1 e1.
+          exists ans1, d1, (if failed then EDest else EClosed). split; [reflexivity|].
+          split; [destruct failed; intros E; discriminate E|].
+          intros rest mis con m. unfold o_close. rewrite S1. reflexivity.
+        + injection Es as Hw He. subst w1 e1. exists [], d, EClosed. split; [reflexivity|].
+          split; [intros E; discriminate E|]. intros rest mis con m.
+          cbn [app]. rewrite lenN_nil, N.add_0_r. reflexivity.
+        + injection Es as Hw He. subst w1 e1. exists [], d, EDest. split; [reflexivity|].
+          split; [intros E; discriminate E|]. intros rest mis con m.
+          cbn [app]. rewrite lenN_nil, N.add_0_r. reflexivity. }
+    destruct Hone as (ans1 & d1 & e1' & Ew1 & Hp1 & S1). subst w1.
+    destruct (IH d1 e1' w' es2 Hp1 Hb2 Er) as (ans2 & d' & e' & Ew' & S2).
+    exists (ans1 ++ ans2), d', e'. split; [exact Ew'|].
+    intros rest mis con m. cbn [map WriterSM.wrun].
+    rewrite <- app_assoc, S1, S2, lenN_app, N.add_assoc. reflexivity.
+Qed.
+
+Theorem oracle_refines : oracle_refines_statement.
+Proof.
+  unfold oracle_refines_statement. intros sync level win4k h w flags Hl Hb Hrun.
+  unfold hrun in Hrun.
+  set (W := if win4k then 4096 else 32768) in *.
+  set (mask := if (level =? 1)%Z then 4095 else 32767).
+  assert (Hnew : comp_new sync level win4k None = CDyn (dyn_new W mask sync (dest_new None))).
+  { unfold comp_new. destruct Hl as [Hl|[Hl|Hl]]; subst level; reflexivity. }
+  rewrite Hnew in Hrun.
+  assert (Hp0 : pinv (dyn_new W mask sync (dest_new None))).
+  { split; [apply new_oinv; unfold W; destruct win4k; lia|]. split; [constructor|exact max_token_pos]. }
+  destruct (run_sim _ h _ ENone w flags (fun _ => Hp0) Hb Hrun) as (ans & d' & e' & Ew & S).
+  specialize (S [] false true 0). rewrite app_nil_r in S.
+  exists ans, (mkw odyn (mkodyn (rt d') [] false true (0 + lenN ans)) e'), flags.
+  split; [exact S|]. split; [split; reflexivity|]. split; [|reflexivity].
+  subst w. reflexivity.
+Qed.
+
+Print Assumptions call_ok_b_sound.
+Print Assumptions oracle_C01.
+Print Assumptions oracle_C10.
+Print Assumptions oracle_refines.
